@@ -111,7 +111,11 @@ class FitYamlWriter(YamlWriterMixin, FitDReprBase):
         if _cost_function_identifier is not None:
             _yaml_doc["cost_function"] = _cost_function_identifier
         else:
-            _yaml_doc["cost_function"] = _process_function_code_for_dump(inspect.getsource(fit._cost_function.func))
+            # a cost function that was read from a file has no source file: use the code it was created from
+            _cost_function_source = getattr(fit._cost_function.func, "_source_code", None)
+            if _cost_function_source is None:
+                _cost_function_source = inspect.getsource(fit._cost_function.func)
+            _yaml_doc["cost_function"] = _process_function_code_for_dump(_cost_function_source)
 
         _yaml_doc["minimizer"] = fit._minimizer
         _yaml_doc["minimizer_kwargs"] = fit._minimizer_kwargs
@@ -213,7 +217,9 @@ class FitYamlReader(YamlReaderMixin, FitDReprBase):
             else:
                 _lookup_dict = STRING_TO_COST_FUNCTION
             if _cost_function not in _lookup_dict:
-                _cost_function = _parse_function(_cost_function)
+                _cost_function_source = _cost_function
+                _cost_function = _parse_function(_cost_function_source)
+                _cost_function._source_code = _cost_function_source
 
         _minimizer = yaml_doc.pop("minimizer", None)
         _minimizer_kwargs = yaml_doc.pop("minimizer_kwargs", None)
